@@ -134,7 +134,12 @@ func LiteralOf(typ zed.Type, body zcode.Bytes) (Lit, bool) {
 	case zed.IDBytes:
 		return Lit{Text: zson.FormatValue(v), Kind: "bytes", Plain: true}, true
 	case zed.IDType:
-		return Lit{Text: zson.FormatValue(v), Kind: "type", Plain: true}, true
+		s := zson.FormatValue(v)
+		if strings.Contains(s, "enum(") {
+			// the language has no spelling for enum types in type literals
+			return Lit{}, false
+		}
+		return Lit{Text: s, Kind: "type", Plain: true}, true
 	}
 	return Lit{}, false
 }
